@@ -36,6 +36,7 @@ type Spec struct {
 	PreK   string   `json:"prek,omitempty"`
 	WinK   string   `json:"wink,omitempty"`
 	PostK  string   `json:"postk,omitempty"`
+	LockK  string   `json:"lockk,omitempty"`  // broadcast started while the verdict is being written to the probing connection
 	Follow []string `json:"follow,omitempty"` // messages sent on the socket after the verdict
 	Seed   int64    `json:"seed"`
 }
@@ -57,7 +58,7 @@ func (s *Spec) Msg() []byte {
 // Key identifies the case for the distinct-case count: class, message, connection
 // behaviour, broadcast placement and follow-ups.
 func (s *Spec) Key() string {
-	return fmt.Sprintf("%s|%s|%s|%v|%s|%d|%s|%s|%s|%s|%s", s.EP, s.Class, s.Conn, s.Binary, s.Pre, s.FillN, s.Suf, s.PreK, s.WinK, s.PostK, strings.Join(s.Follow, ","))
+	return fmt.Sprintf("%s|%s|%s|%v|%s|%d|%s|%s|%s|%s|%s|%s", s.EP, s.Class, s.Conn, s.Binary, s.Pre, s.FillN, s.Suf, s.PreK, s.WinK, s.PostK, s.LockK, strings.Join(s.Follow, ","))
 }
 
 // ---------------------------------------------------------------------------------------
@@ -373,6 +374,9 @@ func pickTiming(r *rand.Rand, s *Spec) {
 	s.PreK = bcastKinds[r.Intn(len(bcastKinds))]
 	s.WinK = bcastKinds[r.Intn(len(bcastKinds))]
 	s.PostK = bcastKinds[r.Intn(len(bcastKinds))]
+	if r.Intn(2) == 0 {
+		s.LockK = "chat"
+	}
 	n := r.Intn(4)
 	perm := r.Perm(len(followKinds))
 	for i := 0; i < n; i++ {
